@@ -96,6 +96,61 @@ def run(res):
             C.add_edge(0, n + 7)
             if canon(G) != canon(impl_graph(adj, order)):
                 res.violation('mutating a clone changed the original', {'adjacency': obs})
+    # scale: long paths / rings / combs (depth must not matter), through the same operations
+    from pyModelChecking.graph import DiGraph
+    for n in ((1500, 3000) if quick else (1500, 3000, 8000)):
+        shapes = {'path': [[i + 1] if i + 1 < n else [] for i in range(n)],
+                  'ring': [[(i + 1) % n] for i in range(n)],
+                  'comb': [[i + 2, i + 1] if i % 2 == 0 and i + 2 < n else [] for i in range(n)]}
+        for shape, adj in shapes.items():
+            G = impl_graph(adj, list(range(n)))
+            g = enc_graph(observed_adj(G))
+            for X in ([0], [n // 2, n - 1]):
+                lines.append('REACH|%s|%s' % (g, ' '.join(map(str, X))))
+                try:
+                    impl.append('OK ' + enc_set(G.get_reachable_set_from(X)))
+                except Exception as e:
+                    impl.append('ERR ' + type(e).__name__)
+                descr.append(('%s with %d nodes' % (shape, n), ('reach', X)))
+            lines.append('REV|%s' % g)
+            try:
+                impl.append(canon(G.get_reversed_graph()))
+            except Exception as e:
+                impl.append('ERR ' + type(e).__name__)
+            descr.append(('%s with %d nodes' % (shape, n), ('rev',)))
+    # odd node names (None, tuples, '', negative ints, floats, frozensets): same answers up to renaming
+    ODD = [None, (), (0, 1), 'x', '', -1, -2, 2.5, frozenset([1]), ('t', None), 'None']
+    for _ in range(300 if quick else 3000):
+        adj = random_digraph(rng, 7)
+        n = len(adj)
+        names = rng.sample(ODD, n)
+        inv = {nm: i for i, nm in enumerate(names)}
+        G = impl_graph(adj, list(range(n)), names=names)
+        X = [v for v in range(n) if rng.random() < 0.4]
+        try:
+            r = set(inv[v] for v in G.get_reachable_set_from([names[v] for v in X]))
+            S = G.get_subgraph([names[v] for v in X] + ['ghost'])
+            sub = (sorted(inv[v] for v in S._next), sorted((inv[a], inv[b]) for a in S._next for b in S._next[a]))
+            R = G.get_reversed_graph()
+            rev = sorted((inv[a], inv[b]) for a in R._next for b in R._next[a])
+        except Exception as e:
+            res.violation('a graph operation raised %s on a graph whose nodes are %r' % (type(e).__name__, names),
+                          {'adjacency': adj, 'names': [repr(x) for x in names], 'X': X})
+            continue
+        seen = set(X)
+        st = list(X)
+        while st:
+            x = st.pop()
+            for y in adj[x]:
+                if y not in seen:
+                    seen.add(y)
+                    st.append(y)
+        exp_sub = (sorted(X), sorted((a, b) for a in X for b in adj[a] if b in X))
+        exp_rev = sorted((b, a) for a in range(n) for b in adj[a])
+        if r != seen or sub != exp_sub or rev != exp_rev:
+            res.violation('graph operations disagree with the definition on a graph with nodes %r' % (names,),
+                          {'adjacency': adj, 'names': [repr(x) for x in names], 'X': X, 'reach': sorted(r),
+                           'expected_reach': sorted(seen), 'sub': sub, 'expected_sub': exp_sub})
     model = lean_batch(lines)
     bad = 0
     kinds = {}
